@@ -571,6 +571,204 @@ Definition ec (n : nat) (p : list stmt) : list stmt := map (ec1 n) p.
 Definition early_continue_model (p : list stmt) : list stmt := ec (fuel_of p) p.
 
 (* ---------------------------------------------------------------------------------------------- *)
+(* fixes.breakout_common_code_in_ifs (fixes.py:2348-2481).
+   For an `if` with an else (not an elif):
+     (A) first statements of both branches equal          -> moved before the `if`
+     (B) else last statements equal                       -> moved after the `if`
+     then, when the recursive first/last leaves exist (every nested first/last `if` has an else):
+     (C) all recursive first leaves equal                 -> moved before
+     (D) else all recursive last leaves equal             -> moved after
+     (E) else the non-blocking recursive last leaves (>= 2) equal -> those moved after
+     otherwise the decision of (A)/(B) stands.  `pass` is never moved.
+   For an `if` without else whose body blocks, followed by the rest R of its block: (A)/(C) between the body
+   and R (moved before).  One pass applies every site (an edit inside a removed statement is dropped);
+   processing.fix iterates the pass. *)
+Fixpoint split_last {A} (l : list A) : option (list A * A) :=
+  match l with
+  | [] => None
+  | [x] => Some ([], x)
+  | x :: tl => match split_last tl with Some (i, z) => Some (x :: i, z) | None => None end
+  end.
+Definition pick (front : bool) (l : list stmt) : option stmt :=
+  if front then hd_error l else option_map snd (split_last l).
+
+(* _all_branches: None = IndexError *)
+Fixpoint leaves (front : bool) (n : nat) (s : stmt) : option (list stmt) :=
+  match n with
+  | O => None
+  | S n' =>
+      match s with
+      | SIf _ bb ee =>
+          match pick front bb, pick front ee with
+          | Some x, Some y =>
+              match leaves front n' x, leaves front n' y with
+              | Some l1, Some l2 => Some (l1 ++ l2)
+              | _, _ => None
+              end
+          | _, _ => None
+          end
+      | _ => Some [s]
+      end
+  end.
+Definition all_same (l : list stmt) : bool :=
+  match l with x :: tl => forallb (stmt_eqb x) tl | [] => false end.
+
+(* remove the recursive first/last leaf of a statement; [nb]: blocking leaves stay *)
+Fixpoint strip (front nb : bool) (n : nat) (s : stmt) : list stmt :=
+  match n with
+  | O => [s]
+  | S n' =>
+      match s with
+      | SIf t bb ee =>
+          let on := fun (l : list stmt) =>
+            if front then match l with x :: tl => strip front nb n' x ++ tl | [] => [] end
+            else match split_last l with Some (i, z) => i ++ strip front nb n' z | None => [] end in
+          [SIf t (fixb (on bb)) (fixb (on ee))]
+      | _ => if nb && is_blocking s PNone then [s] else []
+      end
+  end.
+(* remove the first/last statement of a block as a whole *)
+Definition drop_top (front : bool) (l : list stmt) : list stmt :=
+  if front then tl l else match split_last l with Some (i, _) => i | None => [] end.
+Definition strip_block (front nb : bool) (n : nat) (l : list stmt) : list stmt :=
+  if front then match l with x :: tl => strip front nb n x ++ tl | [] => [] end
+  else match split_last l with Some (i, z) => i ++ strip front nb n z | None => [] end.
+
+Inductive bmode := MTop | MDeep | MDeepNB.
+Record bdec := mkB { bd_front : bool; bd_mode : bmode; bd_stmt : stmt }.
+
+Definition bc_decide (n : nat) (explicit : bool) (b e : list stmt) : option bdec :=
+  match pick true b, pick true e, pick false b, pick false e with
+  | Some b0, Some e0, Some bl, Some el =>
+      let d0 := if stmt_eqb b0 e0 then Some (mkB true MTop b0)
+                else if explicit && stmt_eqb bl el then Some (mkB false MTop bl) else None in
+      let d1 :=
+        match leaves true n b0, leaves true n e0, leaves false n bl, leaves false n el with
+        | Some s1, Some s2, Some f1, Some f2 =>
+            let sb := s1 ++ s2 in let eb := f1 ++ f2 in
+            if all_same sb then Some (mkB true MDeep (hd SPass sb))
+            else if explicit && all_same eb then Some (mkB false MDeep (hd SPass eb))
+            else
+              let nbl := filter (fun x => negb (is_blocking x PNone)) eb in
+              if explicit && (2 <=? length nbl) && all_same nbl then Some (mkB false MDeepNB (hd SPass nbl))
+              else d0
+        | _, _, _, _ => d0
+        end in
+      match d1 with
+      | Some d => if is_pass (bd_stmt d) then None else Some d
+      | None => None
+      end
+  | _, _, _, _ => None
+  end.
+Definition is_simple_stmt (s : stmt) : bool := match s with SIf _ _ _ | SLoop _ _ _ => false | _ => true end.
+
+(* the two blocks after the removals of decision d *)
+Definition bc_strip (n : nat) (d : bdec) (l : list stmt) : list stmt :=
+  match bd_mode d with
+  | MTop => drop_top (bd_front d) l
+  | MDeep => strip_block (bd_front d) false n l
+  | MDeepNB => strip_block (bd_front d) true n l
+  end.
+
+(* A decision the text back end cannot carry out: the moved statement is compound (only its first line is
+   re-indented), or it is to be inserted after an `if` that is the last statement of its block (the insertion
+   point is computed on the next, dedented line).  The resulting text is not valid Python and the WHOLE pass is
+   rolled back ([bcx]); at the end of the file the second case raises IndexError instead (C04, row 34). *)
+Definition bc_bad (d : bdec) (rest : list stmt) : bool :=
+  negb (is_simple_stmt (bd_stmt d)) || (negb (bd_front d) && match rest with [] => true | _ => false end).
+
+Definition bc_implicit (p b rest : list stmt) : option bdec :=
+  if anyb b then match rest with [] => None | _ => bc_decide (fuel_of p) false b rest end else None.
+
+Definition bc_else' (n : nat) (d : bdec) (e : list stmt) : list stmt :=
+  match bd_mode d, is_elif e with
+  | MTop, true => []                 (* the elif clause itself is removed *)
+  | _, _ => fixb (bc_strip n d e)
+  end.
+
+Fixpoint bcp (n : nat) (p : list stmt) : list stmt :=
+  match n with
+  | O => p
+  | S n' =>
+      match p with
+      | [] => []
+      | s :: rest =>
+          match s with
+          | SIf t b [] =>
+              (* implicit else: body blocks, the rest of the block plays the else *)
+              match bc_implicit p b rest with
+              | Some d =>
+                  if bc_bad d rest then SIf t (bcp n' b) [] :: bcp n' rest
+                  else bd_stmt d :: SIf t (bcp n' (fixb (bc_strip (fuel_of p) d b))) []
+                                 :: bcp n' (bc_strip (fuel_of p) d rest)
+              | None => SIf t (bcp n' b) [] :: bcp n' rest
+              end
+          | SIf t b e =>
+              match bc_decide (fuel_of p) true b e with
+              | Some d =>
+                  if bc_bad d rest then SIf t (bcp n' b) (bcp_else n' e) :: bcp n' rest
+                  else
+                    let s' := SIf t (bcp n' (fixb (bc_strip (fuel_of p) d b)))
+                                    (bcp_else n' (bc_else' (fuel_of p) d e)) in
+                    if bd_front d then bd_stmt d :: s' :: bcp n' rest
+                    else s' :: bd_stmt d :: bcp n' rest
+              | None => SIf t (bcp n' b) (bcp_else n' e) :: bcp n' rest
+              end
+          | SLoop h b e => SLoop h (bcp n' b) (bcp n' e) :: bcp n' rest
+          | _ => s :: bcp n' rest
+          end
+      end
+  end
+with bcp_else (n : nat) (e : list stmt) : list stmt :=
+  match n with
+  | O => e
+  | S n' =>
+      match e with
+      | [SIf t2 b2 e2] => [SIf t2 (bcp n' b2) (bcp_else n' e2)]
+      | _ => bcp n' e
+      end
+  end.
+
+(* does the pass meet a decision that cannot be carried out? (same traversal as bcp) *)
+Fixpoint bcx (n : nat) (p : list stmt) : bool :=
+  match n with
+  | O => false
+  | S n' =>
+      match p with
+      | [] => false
+      | s :: rest =>
+          match s with
+          | SIf t b [] =>
+              match bc_implicit p b rest with
+              | Some d =>
+                  bc_bad d rest || bcx n' (fixb (bc_strip (fuel_of p) d b)) || bcx n' (bc_strip (fuel_of p) d rest)
+              | None => bcx n' b || bcx n' rest
+              end
+          | SIf t b e =>
+              match bc_decide (fuel_of p) true b e with
+              | Some d =>
+                  bc_bad d rest || bcx n' (fixb (bc_strip (fuel_of p) d b))
+                  || bcx_else n' (bc_else' (fuel_of p) d e) || bcx n' rest
+              | None => bcx n' b || bcx_else n' e || bcx n' rest
+              end
+          | SLoop h b e => bcx n' b || bcx n' e || bcx n' rest
+          | _ => bcx n' rest
+          end
+      end
+  end
+with bcx_else (n : nat) (e : list stmt) : bool :=
+  match n with
+  | O => false
+  | S n' =>
+      match e with
+      | [SIf t2 b2 e2] => bcx n' b2 || bcx_else n' e2
+      | _ => bcx n' e
+      end
+  end.
+Definition bc_pass (p : list stmt) : list stmt := if bcx (fuel_of p) p then p else bcp (fuel_of p) p.
+Definition breakout_common_code_model (p : list stmt) : list stmt := fix5 bc_pass p.
+
+(* ---------------------------------------------------------------------------------------------- *)
 (* correspondence plumbing: (rule number, input program, expected output of the real rule) *)
 Definition apply_rule (k : nat) (p : list stmt) : list stmt :=
   match k with
@@ -582,6 +780,7 @@ Definition apply_rule (k : nat) (p : list stmt) : list stmt :=
   | 5 => delete_unreachable_code_model p
   | 6 => early_return_model p
   | 7 => early_continue_model p
+  | 8 => breakout_common_code_model p
   | _ => p
   end.
 (* expected = None: the real rule left the program unchanged *)
